@@ -27,7 +27,7 @@ func init() {
 			"StorageDissolvedDecay is exercised with decay disabled (as the property states)",
 		},
 		Workloads: []core.Workload{
-			{Name: "mass", Variant: "plain", N: core.Tiered(8*40, 8*1500), Run: c12Case},
+			{Name: "mass", Variant: "plain", N: core.Tiered(8*40, 8*8000), Run: c12Case},
 		},
 		RequireTags: func(string) []string {
 			return []string{"InstreamFineSediment:lumped-branch", "InstreamFineSediment:flood", "InstreamFineSediment:deposition", "InstreamFineSediment:remobilisation",
@@ -86,6 +86,7 @@ func c12Case(c *core.Ctx) {
 	st := [][]float64{append([]float64{}, st0...)}
 	trapAllIn, trapAllOut := 0.0, 0.0
 	negInputSeen := false
+	runScale := 0.0
 	if model == "StorageTrapAll" && len(st0) > 0 {
 		trapAllIn = st0[0]
 	}
@@ -249,7 +250,11 @@ func c12Case(c *core.Ctx) {
 			}
 		}
 		res := (massIn + stored0) - (massOut + stored1)
-		tol := 1e-9*scale + 1e-12
+		if scale > runScale {
+			runScale = scale
+		}
+		// 1e-9 of this step's masses, plus rounding noise inherited from earlier, larger masses of the run
+		tol := 1e-9*scale + 1e-13*runScale + 1e-12
 		c.Count("steps/"+model, 1)
 		if flushAllowed {
 			tag("flush")
